@@ -50,7 +50,7 @@ Proof. vm_compute. repeat split; try reflexivity; discriminate. Qed.
 Definition wire_aborted (r : creq) (k : nat) : bytes := match client_serialize_aborted r k with Some w => w | None => [] end.
 Lemma ex_aborted :
   let r := built ex_chunked in
-  writer_chunking_enabled (c_chunked r) = true /\ client_serialize r <> None /\ valid lim0 r = true /\
+  req_chunking r = true /\ client_serialize r <> None /\ valid lim0 r = true /\
   client_serialize_aborted r 2 <> None /\
   digest (run_segs lim0 [] init [wire_aborted r 2] [] []) =
     (ROk [], [([80; 79; 83; 84], [47; 112], [120], [1], false, None)]) /\
